@@ -21,8 +21,13 @@
 #include <AIToolbox/MDP/Algorithms/Dyna2.hpp>
 #include <AIToolbox/MDP/Algorithms/ValueIteration.hpp>
 #include <AIToolbox/MDP/Policies/Policy.hpp>
+#include <AIToolbox/MDP/Policies/QGreedyPolicy.hpp>
+#include <AIToolbox/MDP/Policies/EpsilonPolicy.hpp>
+#include <AIToolbox/MDP/Algorithms/RLearning.hpp>
 #include <AIToolbox/MDP/Model.hpp>
 #include <AIToolbox/MDP/SparseModel.hpp>
+#include <AIToolbox/MDP/Experience.hpp>
+#include <AIToolbox/MDP/MaximumLikelihoodModel.hpp>
 #include <boost/multi_array.hpp>
 #include <algorithm>
 
@@ -30,7 +35,7 @@ using namespace verif;
 namespace AI = AIToolbox;
 namespace M = AIToolbox::MDP;
 
-static const long kFixed = 12;
+static const long kFixed = 20;
 
 long verif::verif_ncases(const std::string & tier) { return kFixed + (tier == "thorough" ? 20000 : 1600); }
 
@@ -90,6 +95,31 @@ static M::QFunction randTable(Rng & rng, size_t S, size_t A, int span) {
     return q;
 }
 
+// value tables on which the tolerance-based tie test of QGreedyPolicy (checkEqualGeneral) matters: exact ties, chains of near-ties
+// (steps of 2^-20 = 9.5e-7 < 1e-6: neighbours tie, ends do not), mirrored +-x, magnitudes ~2^20 where the relative tolerance
+// (1e-11 * 1e6 = 1e-5) is wider than the absolute one (gaps of 2^-18 = 3.8e-6 tie only relatively), values around zero
+static M::QFunction structuredTable(Rng & rng, size_t S, size_t A) {
+    M::QFunction q(S, A);
+    static const char * names[] = {"exact-ties", "near-tie-chain", "mirrored", "large-pos", "large-neg", "generic", "tiny"};
+    for (size_t s = 0; s < S; ++s) {
+        int pat = (int)rng.below(7);
+        double base = (double)rng.range(-12, 12) / 4;
+        for (size_t a = 0; a < A; ++a) {
+            switch (pat) {
+                case 0: q(s, a) = base + 0.5 * (double)rng.below(2); break;
+                case 1: q(s, a) = base + std::ldexp((double)rng.below(3), -20); break;
+                case 2: q(s, a) = (rng.coin() ? 1.0 : -1.0) * (double)rng.range(0, 3) / 4; break;
+                case 3: q(s, a) = std::ldexp((double)rng.range(1, 2), 20) + std::ldexp((double)rng.below(3), -18); break;
+                case 4: q(s, a) = -std::ldexp((double)rng.range(1, 2), 20) + std::ldexp((double)rng.below(3), -18); break;
+                case 5: q(s, a) = (double)rng.range(-24, 24) / 4; break;
+                default: q(s, a) = std::ldexp((double)rng.range(-2, 2), -22); break;
+            }
+        }
+        std::printf("#stat row-%s 1\n", names[pat]);
+    }
+    return q;
+}
+
 // random policy matrix with dyadic (k/16) entries; `positive` forces every entry > 0; sometimes deterministic
 static AI::Matrix2D randPolicy(Rng & rng, size_t S, size_t A, bool positive) {
     AI::Matrix2D p(S, A);
@@ -124,8 +154,13 @@ struct ExpGen {
 enum TD { QL_, HYST_, SARSA_, ESARSA_, DQ_, DYNA_ };
 static const char * tdName[] = {"ql", "hyst", "sarsa", "esarsa", "dq", "dyna"};
 
-static void case_td(Rng & rng, TD L, int mode, const std::string & tier, const Params * forced = nullptr) {
+static void case_td(Rng & rng, TD L, int mode, const std::string & tier, const Params * forced = nullptr, int polKind = 0) {
     Params p = forced ? *forced : drawParams(rng, tier, false);
+    // polKind 1: ExpectedSARSA(q, QGreedyPolicy(q)); 2: ExpectedSARSA(q, EpsilonPolicy(QGreedyPolicy(q), eps2)) -- the policy object
+    // reads the table the learner updates
+    double eps2 = p.ugly ? pickD(rng, {0.1, 0.3, 0.05}) : pickD(rng, {0.25, 0.5, 0.125, 1.0, 0.0});
+    if (polKind && mode == 1) eps2 = 0.0;
+    if (polKind && mode == 2 && p.maxSteps > 25) p.maxSteps = 25;
     size_t S = p.S, A = p.A;
     M::QFunction init = M::makeQFunction(S, A);
     std::vector<std::vector<size_t>> next(S, std::vector<size_t>(A));
@@ -140,7 +175,7 @@ static void case_td(Rng & rng, TD L, int mode, const std::string & tier, const P
         pol.setZero();
         for (size_t s = 0; s < S; ++s) { long am; init.row(s).maxCoeff(&am); pol(s, am) = 1.0; }
     } else if (mode == 2) {
-        init = randTable(rng, S, A, 6);
+        init = polKind ? structuredTable(rng, S, A) : randTable(rng, S, A, 6);
     } else if (mode == 3) {
         // learners without a table setter (Hysteretic, SARSA; also QLearning/DynaQ through their update only): a layered
         // deterministic MDP (every action leads to a later state, the last state is absorbing and pays 0) is solved EXACTLY by one
@@ -158,6 +193,8 @@ static void case_td(Rng & rng, TD L, int mode, const std::string & tier, const P
     const int k0 = mode == 3 ? (int)((S - 1) * A) : 0;
     M::Policy policy(pol);
     M::QFunction ext = init;                       // ExpectedSARSA works on a caller-owned table
+    M::QGreedyPolicy gpol(ext); M::EpsilonPolicy epol(gpol, eps2);
+    const M::PolicyInterface & espol = polKind == 1 ? static_cast<const M::PolicyInterface &>(gpol) : polKind == 2 ? static_cast<const M::PolicyInterface &>(epol) : static_cast<const M::PolicyInterface &>(policy);
     std::unique_ptr<M::QLearning> ql; std::unique_ptr<M::HystereticQLearning> hy; std::unique_ptr<M::SARSA> sa;
     std::unique_ptr<M::ExpectedSARSA> es; std::unique_ptr<M::DoubleQLearning> dq;
     M::Model dummy(S, A, p.g); std::unique_ptr<M::DynaQ<M::Model>> dy;
@@ -165,19 +202,30 @@ static void case_td(Rng & rng, TD L, int mode, const std::string & tier, const P
         case QL_: ql.reset(new M::QLearning(S, A, p.g, p.alpha)); if (mode) ql->setQFunction(init); break;
         case HYST_: hy.reset(new M::HystereticQLearning(S, A, p.g, p.alpha, p.beta)); break;
         case SARSA_: sa.reset(new M::SARSA(S, A, p.g, p.alpha)); break;
-        case ESARSA_: es.reset(new M::ExpectedSARSA(ext, policy, p.g, p.alpha)); break;
+        case ESARSA_: es.reset(new M::ExpectedSARSA(ext, espol, p.g, p.alpha)); break;
         case DQ_: dq.reset(new M::DoubleQLearning(S, A, p.g, p.alpha)); if (mode) dq->setQFunction(init); break;
         case DYNA_: dy.reset(new M::DynaQ<M::Model>(dummy, p.alpha, 1)); break;
     }
-    Line l; l << "C11" << "td" << tdName[L] << S << A << p.g << p.rmin << p.rmax << mode;
-    if (L == ESARSA_) putTable(l, pol);
+    // mode 0: "zero-initialised tables" is part of the property -- report what the CONSTRUCTOR produced, not what the harness assumes
+    M::QFunction initC = init * 2;
+    if (mode == 0) switch (L) {
+        case QL_: init = ql->getQFunction(); break;
+        case HYST_: init = hy->getQFunction(); break;
+        case SARSA_: init = sa->getQFunction(); break;
+        case ESARSA_: break;                                   // caller-owned table
+        case DQ_: init = dq->getQFunctionA(); initC = dq->getQFunction(); break;
+        case DYNA_: init = dy->getQFunction(); break;
+    }
+    Line l; l << "C11" << "td" << (polKind ? "esarsap" : tdName[L]) << S << A << p.g << p.rmin << p.rmax << mode;
+    if (polKind) l << polKind << eps2;
+    else if (L == ESARSA_) putTable(l, pol);
     putTable(l, init);
-    if (L == DQ_) { M::QFunction c = init * 2; putTable(l, c); }
+    if (L == DQ_) putTable(l, initC);
     int n = p.maxSteps + k0;
     if (mode == 3) l << k0;
     l << n;
     ExpGen gen(rng, S, A);
-    double alpha = p.alpha, beta = p.beta;
+    double alpha = p.alpha, beta = p.beta, gamma = p.g; int nDisc = 0;
     for (int k = 0; k < n; ++k) {
         Exp e = gen.next(rng, p);
         if (mode == 1) {
@@ -203,7 +251,20 @@ static void case_td(Rng & rng, TD L, int mode, const std::string & tier, const P
                 case DYNA_: dy->setLearningRate(alpha); break;
             }
         }
-        l << e.s << e.a << e.s1 << e.a1 << e.r << alpha << beta;
+        // ... and so may the discount (modes without a fixed-point clause; DynaQ has no such setter)
+        if (rng.coin(1, 10) && (mode == 0 || mode == 2) && L != DYNA_) {
+            gamma = p.ugly ? pickD(rng, {0.9, 0.3, 0.99, 0.5}) : pickD(rng, {0.5, 0.25, 0.75, 0.875, 0.125});
+            switch (L) {
+                case QL_: ql->setDiscount(gamma); break;
+                case HYST_: hy->setDiscount(gamma); break;
+                case SARSA_: sa->setDiscount(gamma); break;
+                case ESARSA_: es->setDiscount(gamma); break;
+                case DQ_: dq->setDiscount(gamma); break;
+                case DYNA_: break;
+            }
+            ++nDisc;
+        }
+        l << e.s << e.a << e.s1 << e.a1 << e.r << alpha << beta << gamma;
         switch (L) {
             case QL_: ql->stepUpdateQ(e.s, e.a, e.s1, e.r); putTable(l, ql->getQFunction()); break;
             case HYST_: hy->stepUpdateQ(e.s, e.a, e.s1, e.r); putTable(l, hy->getQFunction()); break;
@@ -214,8 +275,9 @@ static void case_td(Rng & rng, TD L, int mode, const std::string & tier, const P
         }
     }
     l.emit();
-    std::printf("#stat td-%s-mode%d 1\n", tdName[L], mode);
+    std::printf("#stat td-%s-mode%d 1\n", polKind ? (polKind == 1 ? "esarsa-greedyobj" : "esarsa-epsobj") : tdName[L], mode);
     std::printf("#stat steps %d\n", n);
+    if (nDisc) std::printf("#stat td-setDiscount %d\n", nDisc);
     if (p.ugly) std::printf("#stat ugly 1\n");
 }
 
@@ -226,13 +288,47 @@ static const char * trName[] = {"sarsal", "c-ql", "c-retrace", "c-tb", "c-is", "
 // deterministic MDP whose optimal Q-function is `init` by construction (used by the fixed-point clause)
 struct Star { bool on = false; std::vector<std::vector<size_t>> next; M::QFunction R, q; };
 static Star g_star;
+static bool g_book = true;      // forced witness cases run without clearTraces/setTraces events
 
 template <class Learner>
 static void run_tr(Line & l, Learner & lr, Rng & rng, const Params & p, const AI::Matrix2D & behav, bool sarsal) {
     int n = p.maxSteps, done = 0;
     Line body;
     ExpGen gen(rng, p.S, p.A);
+    // episode boundaries and trace hand-over through the public interface: clearTraces(), getTraces() kept by the caller,
+    // setTraces(kept) (this is what Dyna2 does between its two learners)
+    typename Learner::Traces kept;
+    bool bookkeeping = g_book && rng.coin(1, 2);
+    int nClear = 0, nRestore = 0, nParam = 0;
+    auto snapshot = [&]() {
+        const auto & tr = lr.getTraces();
+        body << (size_t)tr.size();
+        for (const auto & [ts, ta, el] : tr) body << ts << ta << el;
+        putTable(body, lr.getQFunction());
+    };
     for (int k = 0; k < n; ++k) {
+        if (bookkeeping && !g_star.on && rng.coin(1, 6)) {
+            int ev = 1 + (int)rng.below(8);
+            double val = 0.0;
+            // parameter setters between steps: 4 setDiscount, 5 setLambda, 6 setLearningRate, 7 setTolerance (<= 1), 8 setEpsilon
+            if (ev == 4) { val = p.ugly ? pickD(rng, {0.9, 0.3, 1.0, 0.7}) : pickD(rng, {0.5, 0.25, 0.75, 1.0, 0.875}); lr.setDiscount(val); }
+            else if (ev == 5) {
+                if constexpr (requires { lr.setLambda(0.5); }) { val = p.ugly ? pickD(rng, {0.0, 0.9, 0.3, 1.0}) : pickD(rng, {0.0, 0.25, 0.5, 1.0}); lr.setLambda(val); }
+                else ev = 1;
+            }
+            else if (ev == 6) { val = p.ugly ? pickD(rng, {0.1, 0.3, 1.0}) : pickD(rng, {1.0, 0.5, 0.25, 0.125}); lr.setLearningRate(val); }
+            else if (ev == 7) { val = p.ugly ? pickD(rng, {0.001, 0.1, 0.3, -1.0}) : pickD(rng, {0.125, 0.015625, 0.0, 0.5, 1.0}); if (p.tol > 1.0) val = p.tol; lr.setTolerance(val); }
+            else if (ev == 8) {
+                if constexpr (requires { lr.setEpsilon(0.5); }) { val = p.ugly ? pickD(rng, {0.1, 0.05, 0.9}) : pickD(rng, {0.0, 0.25, 0.5, 1.0}); lr.setEpsilon(val); }
+                else ev = 2;
+            }
+            if (ev == 1) { lr.clearTraces(); ++nClear; }
+            else if (ev == 2) kept = lr.getTraces();
+            else if (ev == 3) { lr.setTraces(kept); ++nRestore; }
+            else ++nParam;
+            body << ev; if (ev >= 4) body << val; snapshot(); ++done;
+            continue;
+        }
         Exp e = gen.next(rng, p);
         // the action taken must be possible under the behaviour policy (its probability is a divisor)
         if (behav(e.s, e.a) <= 0.0) for (size_t a = 0; a < p.A; ++a) if (behav(e.s, a) > 0.0) { e.a = a; break; }
@@ -248,24 +344,43 @@ static void run_tr(Line & l, Learner & lr, Rng & rng, const Params & p, const AI
         bool big = !(lr.getQFunction().cwiseAbs().maxCoeff() < 1e60);
         for (const auto & [ts, ta, el] : tr) if (!(std::fabs(el) < 1e60)) big = true;
         if (big) { std::printf("#stat tr-diverged 1\n"); break; }
-        body << e.s << e.a << e.s1 << e.a1 << e.r;
-        body << (size_t)tr.size();
-        for (const auto & [ts, ta, el] : tr) body << ts << ta << el;
-        putTable(body, lr.getQFunction());
+        body << 0 << e.s << e.a << e.s1 << e.a1 << e.r;
+        snapshot();
         ++done;
     }
     l << done;
     if (done) l << body.os.str();
+    if (nClear) std::printf("#stat tr-clearTraces %d\n", nClear);
+    if (nRestore) std::printf("#stat tr-setTraces %d\n", nRestore);
+    if (nParam) std::printf("#stat tr-parameter-setters %d\n", nParam);
     (void)sarsal;
 }
 
-static void case_tr(Rng & rng, TR L, const std::string & tier, const Params * forced = nullptr, bool randomInit = true, bool star = false) {
+static void case_tr(Rng & rng, TR L, const std::string & tier, const Params * forced = nullptr, bool randomInit = true, bool star = false, bool pobj = false) {
     Params p = forced ? *forced : drawParams(rng, tier, true);
+    g_book = !forced;
     if (!forced && rng.coin(1, 4)) p.lam = 0.0;
     if (!forced && p.maxSteps > 150) p.maxSteps = 150;
     size_t S = p.S, A = p.A;
     AI::Matrix2D pt = randPolicy(rng, S, A, false), pb = randPolicy(rng, S, A, rng.coin(2, 3));
-    M::Policy target(pt), behaviour(pb);
+    // policy OBJECTS instead of stored matrices: QGreedyPolicy / EpsilonPolicy(QGreedyPolicy) over a caller-owned value table
+    // (kinds: 0 stored matrix, 1 greedy object, 2 epsilon-greedy object); the behaviour object must give every action it is
+    // asked about a positive probability, so it is the matrix or an epsilon-greedy object with epsilon > 0
+    int kt = 0, kb = 0; double et = 0.0, eb = 0.0;
+    M::QFunction tt = M::makeQFunction(S, A), tb = M::makeQFunction(S, A);
+    if (pobj) {
+        if (rng.coin(1, 3)) p.lam = 0.0;
+        if (p.maxSteps > 60) p.maxSteps = 60;
+        kt = (int)rng.range(1, 2); kb = rng.coin(2, 3) ? 2 : 0;
+        et = p.ugly ? pickD(rng, {0.1, 0.3, 0.0}) : pickD(rng, {0.0, 0.25, 0.5, 1.0});
+        eb = p.ugly ? pickD(rng, {0.1, 0.3, 0.9}) : pickD(rng, {0.25, 0.5, 1.0, 0.125});
+        tt = structuredTable(rng, S, A); tb = rng.coin() ? tt : structuredTable(rng, S, A);
+    }
+    M::QGreedyPolicy gT(tt), gB(tb); M::EpsilonPolicy eT(gT, et), eB(gB, eb);
+    M::Policy targetM(pt), behaviourM(pb);
+    const M::PolicyInterface & target = kt == 1 ? static_cast<const M::PolicyInterface &>(gT) : kt == 2 ? static_cast<const M::PolicyInterface &>(eT) : static_cast<const M::PolicyInterface &>(targetM);
+    const M::PolicyInterface & behaviour = kb == 2 ? static_cast<const M::PolicyInterface &>(eB) : static_cast<const M::PolicyInterface &>(behaviourM);
+    if (kb == 2) pb = AI::Matrix2D::Ones(S, A);      // every action possible
     M::QFunction init = (randomInit && rng.coin()) ? randTable(rng, S, A, 4) : M::makeQFunction(S, A);
     g_star.on = false;
     if (star) {
@@ -285,21 +400,26 @@ static void case_tr(Rng & rng, TR L, const std::string & tier, const Params * fo
         try { M::SARSAL probe(S, A, p.g, p.alpha, 0.5, p.tol); M::QL probe2(S, A, p.g, p.alpha, 0.5, p.tol, 0.0); }
         catch (const std::invalid_argument &) { Line l; l << "C11" << "tolguard" << trName[L] << p.tol; l.emit(); return; }
     }
-    Line l; l << "C11" << "tr" << trName[L] << S << A << p.g << p.alpha << lam << p.tol << p.eps;
-    putTable(l, pt); putTable(l, pb); putTable(l, init);
+    Line l; l << "C11" << (pobj ? "trp" : "tr") << trName[L] << S << A << p.g << p.alpha << lam << p.tol << p.eps;
+    if (pobj) { l << kt << et << kb << eb; putTable(l, tt); putTable(l, tb); }
+    putTable(l, pt); putTable(l, pb);
+    // when the start table is the zero table it is NOT installed with setQFunction: the constructor's own table is reported
+    const bool fresh = init.isZero(0.0);
+    auto start = [&](auto & lr) { if (fresh) init = lr.getQFunction(); else lr.setQFunction(init); putTable(l, init); l << (fresh ? 1 : 0); };
     switch (L) {
-        case SARSAL_: { M::SARSAL lr(S, A, p.g, p.alpha, p.lam, p.tol); lr.setQFunction(init); run_tr(l, lr, rng, p, AI::Matrix2D::Ones(S, A), true); break; }
-        case CQL: { M::QL lr(S, A, p.g, p.alpha, p.lam, p.tol, p.eps); lr.setQFunction(init); run_tr(l, lr, rng, p, AI::Matrix2D::Ones(S, A), false); break; }
-        case CRETRACE: { M::RetraceL lr(behaviour, p.g, p.alpha, p.lam, p.tol, p.eps); lr.setQFunction(init); run_tr(l, lr, rng, p, pb, false); break; }
-        case CTB: { M::TreeBackupL lr(S, A, p.g, p.alpha, p.lam, p.tol, p.eps); lr.setQFunction(init); run_tr(l, lr, rng, p, AI::Matrix2D::Ones(S, A), false); break; }
-        case CIS: { M::ImportanceSampling lr(behaviour, p.g, p.alpha, p.tol, p.eps); lr.setQFunction(init); run_tr(l, lr, rng, p, pb, false); break; }
-        case EQL: { M::QLEvaluation lr(target, p.g, p.alpha, p.lam, p.tol); lr.setQFunction(init); run_tr(l, lr, rng, p, AI::Matrix2D::Ones(S, A), false); break; }
-        case ERETRACE: { M::RetraceLEvaluation lr(target, behaviour, p.g, p.alpha, p.lam, p.tol); lr.setQFunction(init); run_tr(l, lr, rng, p, pb, false); break; }
-        case ETB: { M::TreeBackupLEvaluation lr(target, p.g, p.alpha, p.lam, p.tol); lr.setQFunction(init); run_tr(l, lr, rng, p, AI::Matrix2D::Ones(S, A), false); break; }
-        case EIS: { M::ImportanceSamplingEvaluation lr(target, behaviour, p.g, p.alpha, p.tol); lr.setQFunction(init); run_tr(l, lr, rng, p, pb, false); break; }
+        case SARSAL_: { M::SARSAL lr(S, A, p.g, p.alpha, p.lam, p.tol); start(lr); run_tr(l, lr, rng, p, AI::Matrix2D::Ones(S, A), true); break; }
+        case CQL: { M::QL lr(S, A, p.g, p.alpha, p.lam, p.tol, p.eps); start(lr); run_tr(l, lr, rng, p, AI::Matrix2D::Ones(S, A), false); break; }
+        case CRETRACE: { M::RetraceL lr(behaviour, p.g, p.alpha, p.lam, p.tol, p.eps); start(lr); run_tr(l, lr, rng, p, pb, false); break; }
+        case CTB: { M::TreeBackupL lr(S, A, p.g, p.alpha, p.lam, p.tol, p.eps); start(lr); run_tr(l, lr, rng, p, AI::Matrix2D::Ones(S, A), false); break; }
+        case CIS: { M::ImportanceSampling lr(behaviour, p.g, p.alpha, p.tol, p.eps); start(lr); run_tr(l, lr, rng, p, pb, false); break; }
+        case EQL: { M::QLEvaluation lr(target, p.g, p.alpha, p.lam, p.tol); start(lr); run_tr(l, lr, rng, p, AI::Matrix2D::Ones(S, A), false); break; }
+        case ERETRACE: { M::RetraceLEvaluation lr(target, behaviour, p.g, p.alpha, p.lam, p.tol); start(lr); run_tr(l, lr, rng, p, pb, false); break; }
+        case ETB: { M::TreeBackupLEvaluation lr(target, p.g, p.alpha, p.lam, p.tol); start(lr); run_tr(l, lr, rng, p, AI::Matrix2D::Ones(S, A), false); break; }
+        case EIS: { M::ImportanceSamplingEvaluation lr(target, behaviour, p.g, p.alpha, p.tol); start(lr); run_tr(l, lr, rng, p, pb, false); break; }
     }
     l.emit();
-    std::printf("#stat tr-%s 1\n", trName[L]);
+    std::printf("#stat tr-%s%s 1\n", trName[L], pobj ? "-policyobj" : "");
+    if (pobj) std::printf("#stat target-kind-%d 1\n#stat behaviour-kind-%d 1\n", kt, kb);
     if (p.lam == 0.0) std::printf("#stat lambda0 1\n");
     if (p.ugly) std::printf("#stat ugly 1\n");
 }
@@ -334,6 +454,11 @@ static void run_ps(Rng & rng, const Mod & mod, const M::Model & model, const cha
     for (size_t i = order.size(); i > 1; --i) std::swap(order[i - 1], order[rng.below(i)]);
     if (rng.coin(1, 3)) for (int i = 0; i < 3; ++i) order.push_back(order[rng.below(order.size())]);
     if (rng.coin(1, 10)) order.pop_back();
+    // setQFunction: the table is replaced but the value function (vfun_) and the queue are NOT -- the documented contract
+    // (queue empty + every pair backed up => value iteration's table) must survive a start from an arbitrary table, and a
+    // replacement in mid-run followed by a fresh sweep over all pairs
+    bool initQ = rng.coin(1, 3) && theta < 1e-6;
+    bool midQ = !stepwise && rng.coin(1, 5);
     Line l; l << "C11" << (stepwise ? "psw" : "ps") << kind << S << A << model.getDiscount() << theta;
     for (size_t s = 0; s < S; ++s) for (size_t a = 0; a < A; ++a) for (size_t s1 = 0; s1 < S; ++s1) l << model.getTransitionProbability(s, a, s1);
     putTable(l, model.getRewardFunction());
@@ -343,26 +468,33 @@ static void run_ps(Rng & rng, const Mod & mod, const M::Model & model, const cha
         for (size_t s = 0; s < S; ++s) o << ps.getValueFunction().values[s];
         o << (size_t)ps.getQueueLength();
     };
+    if (initQ) std::printf("#stat ps-setQFunction-start 1\n");
+    if (midQ) std::printf("#stat ps-setQFunction-midrun 1\n");
     if (!stepwise) {
         bool interleave = rng.coin();
-        for (auto [s, a] : order) { ps.stepUpdateQ(s, a); if (interleave && rng.coin()) ps.batchUpdateQ(); }
+        Line ops; size_t nops = 0;
+        if (initQ) { M::QFunction q0 = randTable(rng, S, A, 6); ps.setQFunction(q0); ops << 2; putTable(ops, q0); ++nops; }
+        for (auto [s, a] : order) { ps.stepUpdateQ(s, a); ops << 1 << s << a; ++nops; if (interleave && rng.coin()) ps.batchUpdateQ(); }
+        if (midQ) {
+            M::QFunction q1 = randTable(rng, S, A, 6); ps.setQFunction(q1); ops << 2; putTable(ops, q1); ++nops;
+            for (size_t s = S; s-- > 0; ) for (size_t a = 0; a < A; ++a) { ps.stepUpdateQ(s, a); ops << 1 << s << a; ++nops; if (interleave && rng.coin()) ps.batchUpdateQ(); }
+        }
         long guard = 0;
-        while (ps.getQueueLength() > 0 && guard++ < 200000) ps.batchUpdateQ();
+        while (ps.getQueueLength() > 0 && guard++ < 20000) ps.batchUpdateQ();
         M::ValueIteration vi(2000, 0.0);   // tolerance 0 = run the whole horizon; 0.875^2000 is far below one ulp
         auto [bound, vf, viQ] = vi(model);
         (void)bound; (void)vf;
-        l << (size_t)order.size();
-        for (auto [s, a] : order) l << s << a;
+        l << nops << ops.os.str();
         l << "|";
         snapshot(l);
         putTable(l, viQ);
     } else {
-        // every public call is one event: `1 s a` = stepUpdateQ(s,a), `0` = batchUpdateQ() with N = 1; state after each
-        std::vector<std::string> ev;
+        // every public call is one event: `1 s a` = stepUpdateQ(s,a), `0` = batchUpdateQ() with N = 1, `2 table` = setQFunction; state after each
         size_t nev = 0;
         Line body;
         auto doStep = [&](size_t s, size_t a) { ps.stepUpdateQ(s, a); body << 1 << s << a; snapshot(body); ++nev; };
         auto doPop = [&]() { ps.batchUpdateQ(); body << 0; snapshot(body); ++nev; };
+        if (initQ) { M::QFunction q0 = randTable(rng, S, A, 6); ps.setQFunction(q0); body << 2; putTable(body, q0); snapshot(body); ++nev; }
         for (auto [s, a] : order) { doStep(s, a); while (rng.coin(1, 3) && ps.getQueueLength() > 0 && nev < 400) doPop(); }
         while (ps.getQueueLength() > 0 && nev < 400) doPop();
         l << nev << body.os.str();
@@ -402,13 +534,81 @@ static void case_ps(Rng & rng, const std::string & tier, int kind = -1, int step
     else { PlainModel pm{model, &g_R3}; run_ps(rng, pm, model, "generic", sw); }
 }
 
+// ---------------------------------------------------------------- PrioritizedSweeping over MaximumLikelihoodModel<Experience> (its usual client)
+// The planner keeps a REFERENCE to a model that is re-synced from growing experience.  The MDP handed to the driver is computed by the
+// harness from its own bookkeeping of what was recorded (counts / totals, mean rewards; unvisited pairs: self-loop, reward 0), never read
+// back from the library: a wrong Experience::record / getVisitsSum / getReward or MaximumLikelihoodModel::sync shows up as a planner
+// whose drained table is not the Bellman fixed point of the recorded MDP.
+static void case_psmlm(Rng & rng, const std::string & tier) {
+    (void)tier;
+    size_t S = (size_t)rng.range(2, 4), A = (size_t)rng.range(1, 3);
+    double g = pickD(rng, {0.5, 0.75, 0.875, 0.5});
+    M::Experience exp(S, A);
+    M::MaximumLikelihoodModel<M::Experience> model(exp, g, false);
+    std::vector<double> cnt(S * A * S, 0.0), rsum(S * A, 0.0), tot(S * A, 0.0);
+    bool incremental = false;
+    auto recordSome = [&](bool second) {
+        for (size_t s = 0; s < S; ++s) for (size_t a = 0; a < A; ++a) {
+            size_t i = s * A + a;
+            // totals stay powers of two, rewards multiples of 1/4: transition probabilities and mean rewards are dyadic
+            int add = second ? (tot[i] == 0.0 ? (int)rng.pick(std::vector<int>{0, 2, 4}) : (rng.coin() ? (int)tot[i] : 0)) : (int)rng.pick(std::vector<int>{0, 1, 2, 4, 8, 4});
+            for (int k = 0; k < add; ++k) {
+                size_t s1 = rng.below(S); double r = (double)rng.range(-8, 8) / 4;
+                exp.record(s, a, s1, r);
+                cnt[i * S + s1] += 1; rsum[i] += r; tot[i] += 1;
+                if (incremental) model.sync(s, a, s1);
+            }
+        }
+        if (!incremental) model.sync();
+    };
+    auto putSpec = [&](Line & o) {
+        for (size_t s = 0; s < S; ++s) for (size_t a = 0; a < A; ++a) for (size_t s1 = 0; s1 < S; ++s1) {
+            size_t i = s * A + a;
+            o << (tot[i] == 0.0 ? (s1 == s ? 1.0 : 0.0) : cnt[i * S + s1] / tot[i]);
+        }
+        for (size_t s = 0; s < S; ++s) for (size_t a = 0; a < A; ++a) { size_t i = s * A + a; o << (tot[i] == 0.0 ? 0.0 : rsum[i] / tot[i]); }
+    };
+    recordSome(false);
+    double theta = std::ldexp(1.0, -40);
+    M::PrioritizedSweeping<M::MaximumLikelihoodModel<M::Experience>> ps(model, theta, 64);
+    Line l; l << "C11" << "ps" << "mlm" << S << A << g << theta;
+    putSpec(l);
+    for (size_t i = 0; i < S * A * S; ++i) l << 0.0;          // 3-argument rewards: unused for Eigen models
+    Line ops; size_t nops = 0;
+    // phase 1: some backups on the first model (queue may stay non-empty)
+    int n1 = (int)rng.range(0, (long)(S * A));
+    for (int k = 0; k < n1; ++k) { size_t s = rng.below(S), a = rng.below(A); ps.stepUpdateQ(s, a); ops << 1 << s << a; ++nops; if (rng.coin(1, 3)) ps.batchUpdateQ(); }
+    // the experience grows, the model is re-synced under the planner (all at once, or incrementally after every record)
+    incremental = rng.coin();
+    recordSome(true);
+    ops << 3; putSpec(ops); ++nops;
+    // phase 2: every pair backed up on the final model, then drain
+    std::vector<std::pair<size_t, size_t>> order;
+    for (size_t s = 0; s < S; ++s) for (size_t a = 0; a < A; ++a) order.emplace_back(s, a);
+    for (size_t i = order.size(); i > 1; --i) std::swap(order[i - 1], order[rng.below(i)]);
+    for (auto [s, a] : order) { ps.stepUpdateQ(s, a); ops << 1 << s << a; ++nops; if (rng.coin(1, 3)) ps.batchUpdateQ(); }
+    long guard = 0;
+    while (ps.getQueueLength() > 0 && guard++ < 20000) ps.batchUpdateQ();
+    M::ValueIteration vi(2000, 0.0);
+    auto [bound, vf, viQ] = vi(model);
+    (void)bound; (void)vf;
+    l << nops << ops.os.str() << "|";
+    putTable(l, ps.getQFunction());
+    for (size_t s = 0; s < S; ++s) l << ps.getValueFunction().values[s];
+    l << (size_t)ps.getQueueLength();
+    putTable(l, viQ);
+    l.emit();
+    std::printf("#stat ps-mlm%s 1\n", incremental ? "-incremental-sync" : "-full-sync");
+}
+
 // ---------------------------------------------------------------- DynaQ batch
 struct DetModel {
     size_t S, A; double g; std::vector<std::vector<size_t>> next; AI::Matrix2D rew;
     size_t getS() const { return S; }
     size_t getA() const { return A; }
     double getDiscount() const { return g; }
-    bool isTerminal(size_t) const { return false; }
+    bool terminalAware = false;
+    bool isTerminal(size_t s) const { if (!terminalAware) return false; for (size_t a = 0; a < A; ++a) if (next[s][a] != s) return false; return true; }
     std::tuple<size_t, double> sampleSR(size_t s, size_t a) const { return {next[s][a], rew(s, a)}; }
     std::tuple<size_t, double> sample(size_t s, size_t a) const { return sampleSR(s, a); }   // the name DynaQ::batchUpdateQ calls
 };
@@ -452,15 +652,79 @@ static void case_dynab(Rng & rng, const std::string & tier, int starMode = -1) {
     std::printf("#stat dynab%s 1\n", star ? "-qstar" : "");
 }
 
+// ---------------------------------------------------------------- DynaQ on the library's own models (Model / SparseModel::sampleSR)
+// Real steps and planning batches interleaved.  A planning pass draws a visited pair and calls model.sampleSR(s,a): whatever the
+// generator does, the result must be a QLearning step on SOME visited pair towards SOME possible successor with the model's reward.
+// On deterministic layered models (one backward sweep with step size 1 reaches Q* exactly) every later batch must leave Q* unchanged.
+template <class Mod>
+static void run_dynam(Rng & rng, const Mod & mod, const M::Model & model, const char * kind, bool star, const Params & p,
+                      const std::vector<std::vector<size_t>> & next) {
+    size_t S = model.getS(), A = model.getA();
+    unsigned N = star ? (unsigned)rng.range(1, 3) : 1;
+    double alpha = star ? 1.0 : p.alpha;
+    M::DynaQ<Mod> d(mod, alpha, N);
+    Line l; l << "C11" << "dynam" << kind << S << A << model.getDiscount() << (size_t)N << (star ? 1 : 0);
+    for (size_t s = 0; s < S; ++s) for (size_t a = 0; a < A; ++a) for (size_t s1 = 0; s1 < S; ++s1) l << model.getTransitionProbability(s, a, s1);
+    putTable(l, model.getRewardFunction());
+    Line body; size_t nev = 0;
+    auto doStep = [&](size_t s, size_t a, size_t s1, double r) { d.stepUpdateQ(s, a, s1, r); body << 1 << s << a << s1 << r << alpha; putTable(body, d.getQFunction()); ++nev; };
+    auto doBatch = [&]() { d.batchUpdateQ(); body << 0 << alpha; putTable(body, d.getQFunction()); ++nev; };
+    if (star) {
+        for (size_t s = S - 1; s-- > 0; ) for (size_t a = 0; a < A; ++a) doStep(s, a, next[s][a], model.getRewardFunction()(s, a));
+        alpha = pickD(rng, {1.0, 0.5, 0.25, 0.125}); d.setLearningRate(alpha);
+        int n = (int)rng.range(5, 40);
+        for (int k = 0; k < n; ++k) doBatch();
+    } else {
+        doBatch();                                        // nothing visited yet: must be a no-op
+        int n = std::min(p.maxSteps, 60);
+        for (int k = 0; k < n; ++k) {
+            if (rng.coin(1, 6)) { alpha = p.ugly ? pickD(rng, {0.1, 0.3, 1.0, 0.7}) : pickD(rng, {1.0, 0.5, 0.25, 0.125}); d.setLearningRate(alpha); }
+            if (rng.coin()) {
+                size_t s = rng.below(S), a = rng.below(A), s1 = rng.below(S);
+                for (size_t t = 0; t < S; ++t) { size_t c = (s1 + t) % S; if (model.getTransitionProbability(s, a, c) > 0.0) { s1 = c; break; } }
+                doStep(s, a, s1, drawReward(rng, p));
+            } else doBatch();
+        }
+    }
+    l << p.rmin << p.rmax << nev << body.os.str();
+    l.emit();
+    std::printf("#stat dynam-%s%s 1\n", kind, star ? "-qstar" : "");
+}
+
+static void case_dynam(Rng & rng, const std::string & tier, int starMode = -1, int kindSel = -1) {
+    Params p = drawParams(rng, tier, false);
+    bool star = starMode < 0 ? rng.coin(1, 3) : starMode != 0;
+    size_t S = std::max<size_t>(p.S, 2), A = p.A;
+    if (star && p.ugly) { p.g = 0.5; p.ugly = false; }
+    boost::multi_array<double, 3> T(boost::extents[S][A][S]), R(boost::extents[S][A][S]);
+    std::vector<std::vector<size_t>> next(S, std::vector<size_t>(A, 0));
+    for (size_t s = 0; s < S; ++s) for (size_t a = 0; a < A; ++a) {
+        for (size_t s1 = 0; s1 < S; ++s1) T[s][a][s1] = 0.0;
+        double r = (double)rng.range(-12, 12) / 4;
+        if (star) {
+            next[s][a] = s + 1 < S ? (size_t)rng.range((long)s + 1, (long)S - 1) : S - 1;
+            T[s][a][next[s][a]] = 1.0;
+            if (s + 1 == S) r = 0.0;
+            for (size_t s1 = 0; s1 < S; ++s1) R[s][a][s1] = r;
+        } else {
+            std::vector<int> k(S, 0);
+            if (rng.coin()) { k[rng.below(S)] = 8; } else for (int i = 0; i < 8; ++i) k[rng.below(S)]++;
+            for (size_t s1 = 0; s1 < S; ++s1) { T[s][a][s1] = k[s1] / 8.0; R[s][a][s1] = (double)rng.range(-8, 8) / 4; }
+        }
+    }
+    M::Model model(S, A, T, R, p.g);
+    // the model's own rewards are part of the experience the embedded learner sees: widen the declared reward range accordingly
+    p.rmin = std::min(p.rmin, model.getRewardFunction().minCoeff()); p.rmax = std::max(p.rmax, model.getRewardFunction().maxCoeff());
+    int kind = kindSel < 0 ? (int)rng.below(2) : kindSel;
+    if (kind == 0) run_dynam(rng, model, model, "dense", star, p, next);
+    else { M::SparseModel sm(model); run_dynam(rng, sm, model, "sparse", star, p, next); }
+}
+
 // ---------------------------------------------------------------- Dyna2 (two SARSAL learners sharing traces)
-static void case_dyna2(Rng & rng, const std::string & tier) {
-    Params p = drawParams(rng, tier, true);
-    if (p.tol > 1.0) p.tol = 0.125;
-    DetModel m{p.S, p.A, p.g, {}, randTable(rng, p.S, p.A, 3)};
-    m.next.assign(p.S, std::vector<size_t>(p.A));
-    for (auto & row : m.next) for (auto & x : row) x = rng.below(p.S);
+template <class Mod>
+static void run_dyna2(Rng & rng, const Mod & m, const char * kind, Params p, const std::vector<std::vector<size_t>> & next, const AI::Matrix2D & rew) {
     unsigned N = (unsigned)rng.range(1, 4);
-    M::Dyna2<DetModel> d(m, p.alpha, p.lam, p.tol, N);
+    M::Dyna2<Mod> d(m, p.alpha, p.lam, p.tol, N);
     double lamT = p.lam;
     if (rng.coin(1, 3)) { lamT = p.ugly ? pickD(rng, {0.0, 0.9, 0.3}) : pickD(rng, {0.0, 0.25, 0.5, 1.0}); d.setTransientLambda(lamT); }
     // deterministic internal policy so that batchUpdateQ is a function of its argument
@@ -468,21 +732,62 @@ static void case_dyna2(Rng & rng, const std::string & tier) {
     std::vector<size_t> act(p.S);
     for (size_t s = 0; s < p.S; ++s) { act[s] = rng.below(p.A); pol(s, act[s]) = 1.0; }
     d.setInternalPolicy(new M::Policy(pol));
-    Line l; l << "C11" << "dyna2" << p.S << p.A << p.g << p.alpha << p.lam << lamT << p.tol << (size_t)N;
-    for (auto & row : m.next) for (auto x : row) l << x;
-    putTable(l, m.rew);
+    Line l; l << "C11" << "dyna2" << kind << p.S << p.A << p.g << p.alpha << p.lam << lamT << p.tol << (size_t)N;
+    for (auto & row : next) for (auto x : row) l << x;
+    putTable(l, rew);
     for (auto a : act) l << a;
     int n = std::min(p.maxSteps, 80); l << n;
     ExpGen gen(rng, p.S, p.A);
     for (int k = 0; k < n; ++k) {
-        int kind = (int)rng.below(6);
-        if (kind <= 3) { Exp e = gen.next(rng, p); l << 1 << e.s << e.a << e.s1 << e.a1 << e.r; d.stepUpdateQ(e.s, e.a, e.s1, e.a1, e.r); }
-        else if (kind == 4) { size_t s0 = rng.below(p.S); l << 2 << s0; d.batchUpdateQ(s0); }
+        int ev = (int)rng.below(6);
+        if (ev <= 3) { Exp e = gen.next(rng, p); l << 1 << e.s << e.a << e.s1 << e.a1 << e.r; d.stepUpdateQ(e.s, e.a, e.s1, e.a1, e.r); }
+        else if (ev == 4) { size_t s0 = rng.below(p.S); l << 2 << s0; d.batchUpdateQ(s0); }
         else { l << 3; d.resetTransientLearning(); }
         putTable(l, d.getPermanentQFunction()); putTable(l, d.getTransientQFunction());
     }
     l.emit();
-    std::printf("#stat dyna2 1\n");
+    std::printf("#stat dyna2-%s 1\n", kind);
+}
+
+static void case_dyna2(Rng & rng, const std::string & tier) {
+    Params p = drawParams(rng, tier, true);
+    if (p.tol > 1.0) p.tol = 0.125;
+    DetModel m{p.S, p.A, p.g, {}, randTable(rng, p.S, p.A, 3)};
+    m.next.assign(p.S, std::vector<size_t>(p.A));
+    for (auto & row : m.next) for (auto & x : row) x = rng.below(p.S);
+    // some absorbing states (every action loops back): Model::isTerminal is true there and the simulated chain of
+    // batchUpdateQ restarts from its initial state
+    if (rng.coin()) for (size_t s = 0; s < p.S; ++s) if (rng.coin(1, 3)) for (auto & x : m.next[s]) x = s;
+    int kind = (int)rng.below(3);
+    if (kind == 0) { m.terminalAware = rng.coin(); run_dyna2(rng, m, m.terminalAware ? "det-term" : "det", p, m.next, m.rew); return; }
+    boost::multi_array<double, 3> T(boost::extents[p.S][p.A][p.S]), R(boost::extents[p.S][p.A][p.S]);
+    for (size_t s = 0; s < p.S; ++s) for (size_t a = 0; a < p.A; ++a) for (size_t s1 = 0; s1 < p.S; ++s1) {
+        T[s][a][s1] = m.next[s][a] == s1 ? 1.0 : 0.0; R[s][a][s1] = m.rew(s, a);
+    }
+    M::Model model(p.S, p.A, T, R, p.g);
+    if (kind == 1) run_dyna2(rng, model, "dense", p, m.next, model.getRewardFunction());
+    else { M::SparseModel sm(model); run_dyna2(rng, sm, "sparse", p, m.next, model.getRewardFunction()); }
+}
+
+// ---------------------------------------------------------------- RLearning (average-reward analogue of QLearning; no discount, so
+// outside the bounds clause: exercised for correspondence with the model of the update AS WRITTEN, incl. its checkEqualGeneral test)
+static void case_rl(Rng & rng, const std::string & tier) {
+    Params p = drawParams(rng, tier, false);
+    size_t S = p.S, A = p.A;
+    double rho = p.ugly ? pickD(rng, {0.1, 0.3, 1.0}) : pickD(rng, {0.5, 0.25, 1.0, 0.125});
+    M::RLearning rl(S, A, p.alpha, rho);
+    M::QFunction init = M::makeQFunction(S, A);
+    if (rng.coin()) { init = structuredTable(rng, S, A); rl.setQFunction(init); }
+    int n = std::min(p.maxSteps, 40);
+    Line l; l << "C11" << "rl" << S << A << p.alpha << rho; putTable(l, init); l << n;
+    ExpGen gen(rng, S, A);
+    for (int k = 0; k < n; ++k) {
+        Exp e = gen.next(rng, p);
+        rl.stepUpdateQ(e.s, e.a, e.s1, e.r);
+        l << e.s << e.a << e.s1 << e.r; putTable(l, rl.getQFunction()); l << rl.getAverageReward();
+    }
+    l.emit();
+    std::printf("#stat rlearning 1\n");
 }
 
 // ---------------------------------------------------------------- cases
@@ -504,10 +809,19 @@ void verif::verif_case(Rng & rng, long idx, const std::string & tier) {
             // same MDP family with a 2^-21 transition: the dense (Eigen) branch honours it, the generic branch drops it
             case 10: case_ps(rng, tier, 0, 0, 1); break;
             case 11: case_ps(rng, tier, 2, 0, 1); break;
+            // round 3: policy objects, real models, trace bookkeeping
+            case 12: case_td(rng, ESARSA_, 0, tier, &p, 1); break;          // ExpectedSARSA(q, QGreedyPolicy(q)) from the zero table (all ties)
+            case 13: case_td(rng, ESARSA_, 1, tier, nullptr, 1); break;     // ... started at Q*
+            case 14: case_td(rng, ESARSA_, 2, tier, nullptr, 2); break;     // ... epsilon-greedy object on a structured table
+            case 15: case_tr(rng, ETB, tier, nullptr, true, false, true); break;
+            case 16: case_tr(rng, CRETRACE, tier, nullptr, true, false, true); break;
+            case 17: case_dynam(rng, tier, 1, 0); break;
+            case 18: case_dynam(rng, tier, 0, 1); break;
+            case 19: case_rl(rng, tier); break;
         }
         return;
     }
-    long k = (idx - kFixed) % 32;
+    long k = (idx - kFixed) % 40;
     if (k < 6) case_td(rng, (TD)k, 0, tier);                               // zero start, bounds clause
     else if (k < 12) case_td(rng, (TD)(k - 6), 0, tier);
     else if (k == 12) case_td(rng, QL_, 1, tier);                          // fixed point at Q*
@@ -519,8 +833,13 @@ void verif::verif_case(Rng & rng, long idx, const std::string & tier) {
     else if (k < 27) case_tr(rng, (TR)rng.below(9), tier);
     else if (k == 27) case_tr(rng, (TR)rng.below(5), tier, nullptr, true, true);   // control learners / SARSA(lambda) at Q*
     else if (k < 31) case_ps(rng, tier);
-    else if (rng.coin()) case_dynab(rng, tier);
-    else case_dyna2(rng, tier);
+    else if (k == 31) { if (rng.coin()) case_dynab(rng, tier); else case_dyna2(rng, tier); }
+    else if (k == 32) case_td(rng, ESARSA_, (int)rng.below(3), tier, nullptr, (int)rng.range(1, 2));       // policy objects over the learner's own table
+    else if (k == 33) case_td(rng, ESARSA_, rng.coin() ? 2 : 1, tier, nullptr, (int)rng.range(1, 2));
+    else if (k < 37) case_tr(rng, rng.pick(std::vector<TR>{CRETRACE, CIS, EQL, ERETRACE, ETB, EIS}), tier, nullptr, true, false, true);
+    else if (k == 37) case_dynam(rng, tier);
+    else if (k == 38) { if (rng.coin()) case_dyna2(rng, tier); else case_psmlm(rng, tier); }
+    else case_rl(rng, tier);
 }
 
 VERIF_MAIN
